@@ -305,6 +305,61 @@ def input_class(kind, para, m):
     return kind + ("-eq" if para else "-full") + ("-m3+" if (m or 0) >= 3 else "")
 
 
+_METRIC = {}
+
+
+def metric_of(setup, para):
+    """M = L^T L of the implementation's own variable -> stacked-vector map v |-> L v + c (the map calc_proj_physical_with_var
+    applies before projecting and inverts afterwards).  By theorem C11_projection_metric_pullback the algorithm's projection is
+    the nearest-point map of <x, M y>; by C11_scalar_metric_is_euclidean it is the Euclidean one iff M = c I.
+    returns (M as float array with integer entries, c or None)"""
+    key = (setup, para)
+    if key not in _METRIC:
+        qt, c, kind, m = get_setup(setup, para)
+        n = qt.num_variables
+        with quiet():
+            est = qt.generate_empty_estimation_obj_with_setting_info()
+            conv = lambda v: np.array(est.convert_var_to_stacked_vector(c, np.array(v, dtype=float), on_para_eq_constraint=para), dtype=float)
+            f0 = conv(np.zeros(n))
+            L = np.array([conv(e) - f0 for e in np.eye(n)]).T
+            rs = np.random.RandomState(5)
+            v = np.round(rs.randn(n) * 8) / 8
+            affine = np.abs(conv(v) - (L @ v + f0)).max() <= 1e-12
+        M = L.T @ L
+        if not affine or np.abs(M - np.round(M)).max() > 1e-12:
+            raise RuntimeError("convert_var_to_stacked_vector is not the expected affine map with integer metric (%s)" % (key,))
+        M = np.round(M)
+        cc = M[0, 0]
+        _METRIC[key] = (M, float(cc) if cc > 0 and np.array_equal(M, cc * np.eye(n)) else None)
+        _METRIC[key + ("L",)] = (L, f0)
+    return _METRIC[key]
+
+
+def chk_povm_embedding(ctx, m_, setup, para, report):
+    """once per POVM setup with on_para_eq_constraint=True: the implementation's variable -> stacked-vector map equals the model
+    [C11_povm_L], [C11_povm_c] (theorems C11_povm_embedding_is_conversion, C11_povm_variable_metric) and the measured metric
+    equals the model's L^T L, exactly"""
+    key = (setup, para, "embed-checked")
+    if key in _METRIC:
+        return
+    _METRIC[key] = True
+    qt, c, kind, m = get_setup(setup, para)
+    if kind != "povm" or not para:
+        return
+    M, _ = metric_of(setup, para)
+    L, f0 = _METRIC[(setup, para, "L")]
+    D = c.dim ** 2
+    out = [float(v) for v in m_.call("c11.povm_embed", [D, m], [])]
+    Lm = np.array(out[:m * D * (m - 1) * D]).reshape(m * D, (m - 1) * D)
+    Mm = np.array(out[m * D * (m - 1) * D:]).reshape((m - 1) * D, (m - 1) * D)
+    c_model = np.zeros(m * D); c_model[(m - 1) * D] = np.sqrt(c.dim)
+    if L.shape != Lm.shape or not np.array_equal(L, Lm) or not np.array_equal(M, Mm) or np.abs(f0 - c_model).max() > 1e-15:
+        report("Povm.convert_var_to_stacked_vector", "embedding-model-mismatch",
+               "the variable -> stacked-vector map of the %d-outcome POVM differs from the model (L: %s, M: %s, offset: %s)" % (
+                   m, L.shape == Lm.shape and np.array_equal(L, Lm), np.array_equal(M, Mm), float(np.abs(f0 - c_model).max())))
+    ctx.count("pgdb", key=("embed", setup), nontrivial=True, label="povm-embedding-m%d" % m)
+
+
 # ====================================================================================== pgdb sub-check
 def pick_steps(k, limit, rs):
     if k <= limit:
@@ -349,6 +404,8 @@ def chk_pgdb(ctx, case):
     mu = float(case["mu"]) if case.get("mu") else 3 / (2 * np.sqrt(n))
     gamma = float(case.get("gamma", 0.3))
     eps = float(ao.eps)
+    Mmet, Mscalar = metric_of(setup, para)
+    chk_povm_embedding(ctx, m_, setup, para, lambda site_, sig_, what_: ctx.violation(sub, site_, sig_, what_, case))
     h = case["h"]; mode = case["mode"]; max_iter = case["max_iter"]
     converged = k < max_iter or (errs and sum(errs[-min(len(errs), h):]) <= eps)
     label = "%s-%s-%s-%s-%s" % (setup, "eq" if para else "full", lname, mode, "conv" if converged else "maxit")
@@ -405,6 +462,13 @@ def chk_pgdb(ctx, case):
         if np.abs(y_re - y).max() > TOL["ydir"] * (1 + np.abs(y).max()):
             vctx.violation(sub, site, "direction", "step %d: recorded y differs from P(x - g/mu) - x by %.3g (mu=%.6g) (%s)" % (i, np.abs(y_re - y).max(), mu, label), case)
             return
+        if a_impl == 0 and float(np.dot(g, y)) > 0:
+            # <g,y> > 0: the Armijo test can never pass, the line search halves alpha until it underflows to 0.0
+            vctx.violation(sub, site, "not-a-descent-direction", "step %d: <g,y> = %.3g > 0, the line search ran down to alpha = 0.0 (%s)" % (i, float(np.dot(g, y)), label), case)
+            if Mscalar is not None:
+                return
+            ctx.count(sub, key=(key, i), nontrivial=False, label="step-alpha0")
+            continue
         hal_impl = -math.log2(a_impl) if a_impl > 0 else float("inf")
         if a_impl <= 0 or abs(hal_impl - round(hal_impl)) > 0:
             vctx.violation(sub, site, "alpha-not-power-of-half", "step %d: alpha=%r" % (i, a_impl), case)
@@ -472,13 +536,23 @@ def chk_pgdb(ctx, case):
         if not stop_inband and not last_forced and cont_m != impl_continued:
             vctx.violation(sub, site, "stopping-rule", "step %d of %d mode %s h=%d: window value %.6g eps %.3g: model continue=%s, implementation continued=%s (%s)" % (i + 1, k, MODES[mode], h, float(val_m), eps, cont_m, impl_continued, label), case)
             return
-        # descent direction certificate (T1) on the implementation's g, y
-        gq = m_.call("c11.gap", [n], [mu] + rflat(x) + rflat(g) + rflat(y) + rflat(x))
-        defect = float(gq[1])
-        stat("descent_defect", max(0.0, defect) / (1 + np.linalg.norm(g) * np.linalg.norm(y)))
-        if defect > TOL["descent"] * (1 + np.linalg.norm(g) * np.linalg.norm(y)):
-            vctx.violation(sub, site, "not-a-descent-direction", "step %d: <g,y> + mu|y|^2 = %.3g > 0 (x feasible, P projection => <= 0) (%s)" % (i, defect, label), case)
+        # certificates on the implementation's g, y (exact arithmetic):
+        #  (a) <M g, y> + mu <y, M y> <= 0   holds for the code as written whenever func_proj is the nearest-point map of the
+        #      metric M = L^T L of quara's variable -> stacked-vector map (C11_descent_certificate_as_coded, C11_projection_metric_pullback)
+        #  (b) <g, y> + mu |y|^2 <= 0        (T1, C11_descent_direction) needs the EUCLIDEAN projection, i.e. M = c I
+        mq = m_.call("c11.metric", [n], [mu] + rflat(g) + rflat(y) + rflat(Mmet))
+        defect_m, defect = float(mq[0]), float(mq[2])
+        gy_scale = 1 + np.linalg.norm(g) * np.linalg.norm(y)
+        stat("metric_defect", max(0.0, defect_m) / (Mmet[0, 0] * gy_scale))
+        if defect_m > TOL["descent"] * Mmet[0, 0] * gy_scale:
+            vctx.violation(sub, site, "projection-not-nearest-point", "step %d: <Mg,y> + mu<y,My> = %.3g > 0: func_proj is not the nearest-point map of the stacked-vector metric M (x feasible) (%s)" % (i, defect_m, label), case)
             return
+        if Mscalar is not None:
+            stat("descent_defect", max(0.0, defect) / gy_scale)
+        if defect > TOL["descent"] * gy_scale:
+            vctx.violation(sub, site, "not-a-descent-direction", "step %d: <g,y> + mu|y|^2 = %.3g > 0 (x feasible, Euclidean projection => <= 0)%s (%s)" % (i, defect, "" if Mscalar is not None else "; the projection is nearest-point for the metric M = L^T L != c I of the variable, the gradient step is Euclidean", label), case)
+            if Mscalar is not None:
+                return
         nt = (not inband) and (not stop_inband)
         nontrivial_steps += int(nt)
         ctx.count(sub, key=(key, i), nontrivial=nt, label="step-hal%d" % min(hal_impl, 6) if nt else "step-inband")
@@ -512,13 +586,17 @@ def chk_pgdb(ctx, case):
             fz = float(loss.value(np.array(z, dtype=float)))
         bound = float(m_.call("c11.gap", [n], [mu] + rflat(xf) + rflat(gf) + rflat(yf) + rflat(z))[0])
         scale = 1 + abs(f_fin)
-        stat("gap_consistency_excess", max(0.0, bound - (fz - f_fin)) / scale)
+        if Mscalar is None:
+            bound = -float("inf")      # T5 needs the Euclidean projection (M = c I); no certificate for this class
+        else:
+            stat("gap_consistency_excess", max(0.0, bound - (fz - f_fin)) / scale)
         if fz - f_fin < bound - TOL["gap_consistency"] * scale:
             vctx.violation(sub, site, "gap-certificate", "competitor %s: f z - f x = %.6g < certified bound %.6g  (convex f, projection P, gradient g => impossible) (%s)" % (name, fz - f_fin, bound, label), case)
             return
         if converged:
-            stat("opt_excess:" + ("sq" if issq else "re"), max(0.0, f_fin - fz) / scale)
-            stat("gap_width", max(0.0, -bound) / scale)
+            stat("opt_excess:" + ("sq" if issq else "re") + ("" if Mscalar is not None else ":known-C11-3-class"), max(0.0, f_fin - fz) / scale)
+            if Mscalar is not None:
+                stat("gap_width", max(0.0, -bound) / scale)
             if f_fin - fz > TOL["opt"] * scale:
                 vctx.violation(sub, "LossMinimizationEstimator.calc_estimate", "not-optimal", "competitor %s has loss %.12g < loss of the estimate %.12g (difference %.3g, stopping mode %s eps %.3g, k=%d) (%s)" % (name, fz, f_fin, f_fin - fz, MODES[mode], eps, k, label), case)
                 return
@@ -620,15 +698,31 @@ def chk_cvx_est(ctx, case):
     dres = r.detailed_results[0]
     f_p = float(dres.fx[-1])
     conv = dres.k < 2000
-    stat("cvx_vs_pgdb:" + fam, abs(f_q - f_p) / (1 + abs(f_p)))
+    stat("cvx_vs_pgdb:" + fam + ("" if metric_of(setup, True)[1] is not None else ":known-C11-3-class"), abs(f_q - f_p) / (1 + abs(f_p)))
+    x_p = np.array(r.estimated_var, dtype=float)
     if conv and abs(f_q - f_p) > TOL["cvx_agree"] * (1 + abs(f_p)):
         if f_q > f_p:
             ctx.violation(sub, site, "not-optimal:" + cls, "estimators disagree: loss at SCS estimate %.12g > loss at backtracking estimate %.12g (%s)" % (f_q, f_p, label), case)
-        else:
-            ctx.violation(sub, "LossMinimizationEstimator.calc_estimate", "not-optimal:" + cls, "estimators disagree: loss at backtracking estimate %.12g (stopped by its criterion, k=%d) > loss at SCS estimate %.12g (%s)" % (f_p, dres.k, f_q, label), case)
-        return
+            return
+        ctx.violation(sub, "LossMinimizationEstimator.calc_estimate", "not-optimal:" + cls, "estimators disagree: loss at backtracking estimate %.12g (stopped by its criterion, k=%d) > loss at SCS estimate %.12g (%s)" % (f_p, dres.k, f_q, label), case)
+        if metric_of(setup, True)[1] is not None:
+            return
+        # class with a non-Euclidean projection metric (known finding C11-3): the SCS estimate is still compared with a
+        # backtracking run, the one on the FULL parametrisation of the same tomography (same data), whose metric is M = I
+        qtF = get_setup(setup, False)[0]
+        pcaseF = dict(pcase, para=False)
+        rF, _, _, _, _ = run_pgdb(qtF, empi, pcaseF)
+        dF = rF.detailed_results[0]
+        f_p = float(dF.fx[-1]); conv = dF.k < 2000
+        x_p = to_var(kind, True, from_var(kind, c, m, False, np.array(rF.estimated_var, dtype=float)))
+        stat("cvx_vs_pgdb_full:" + fam, abs(f_q - f_p) / (1 + abs(f_p)))
+        if conv and abs(f_q - f_p) > TOL["cvx_agree"] * (1 + abs(f_p)):
+            who = (site, "SCS", "backtracking (full parametrisation)") if f_q > f_p else ("LossMinimizationEstimator.calc_estimate", "backtracking (full parametrisation)", "SCS")
+            ctx.violation(sub, who[0], "not-optimal:" + input_class(kind, False, m) if f_q < f_p else "not-optimal:" + cls,
+                          "estimators disagree: loss at the %s estimate %.12g > loss at the %s estimate %.12g (%s)" % (who[1], max(f_q, f_p), who[2], min(f_q, f_p), label), case)
+            return
     # competitors must not beat the SCS estimate
-    comps = [("truth", to_var(kind, True, truth_full)), ("pgdb", np.array(r.estimated_var, dtype=float))]
+    comps = [("truth", to_var(kind, True, truth_full)), ("pgdb", x_p)]
     for j in range(ctx.n(3, 8)):
         comps.append(("random%d" % j, to_var(kind, True, rand_object(kind, c, m, case["truth_seed"] * 31 + 7 + j))))
     for name, z in comps:
@@ -712,7 +806,7 @@ def chk_cvx_maps(ctx, case):
 
     def sp_ok(site, got, ref, what):
         """with_sparsity expressions only feed `>> 0`: accept the operator or its transpose (same PSD verdict, theorem
-        C11_transpose_psd), record which"""
+        C11_transpose_same_psd_constraint), record which"""
         got = dense(got)
         if np.abs(got - ref).max() <= tol * (1 + np.abs(ref).max()):
             return "same"
@@ -792,6 +886,7 @@ def chk_cvx_maps(ctx, case):
                 ref = mat(m_.call("c11.cvx_mp", [d, m, x, 0], bflat + rflat(val)), D)
                 mod1 = mat(m_.call("c11.cvx_mp", [d, m, x, 1], bflat + rflat(val)), D)
                 mod2 = mat(m_.call("c11.cvx_mp", [d, m, x, 2], bflat + rflat(val)), D)
+                mod_old = mat(m_.call("c11.cvx_mp", [d, m, x, 3], bflat + rflat(val)), D)   # as coded BEFORE the fix
                 refs.append(ref)
                 e1 = cv.mprocess_element_choi_from_var(c, m, x, var).value
                 e2 = cv.mprocess_element_choi_from_var_with_sparsity(c, m, x, var).value
@@ -801,18 +896,22 @@ def chk_cvx_maps(ctx, case):
                 ok &= o is not None
                 if o:
                     ok &= cmp_("conversion.mprocess_element_choi_from_var_with_sparsity", "model-mismatch", e2 if o == "transpose" else dense(e2).T, mod2, "with_sparsity vs model x=%d" % x)
-                # the property: the CVXPY expression denotes the Choi matrix of the SAME instrument element.
-                # If it does, fine.  If it does not but equals the model of the code as read (last outcome: first row
-                # summed over range(m-2), no unit vector) it is the defect C11_mp_coded_refuted; anything else is a new deviation.
+                # the property: the CVXPY expression denotes the Choi matrix of the SAME instrument element (theorem
+                # C11_mprocess_element_choi_from_var_denotes about the model of the repaired code, mod1).  If it does not but
+                # equals the function as coded before fix mprocess-element-choi-from-var-last-outcome (last outcome: first row
+                # summed over range(m-2), no unit vector; C11_mprocess_element_choi_from_var_before_fix_refuted) the old defect
+                # is back; anything else is a new deviation.
                 e1d = dense(e1)
+                if np.abs(mod1 - ref).max() > 0:
+                    ctx.violation(sub, "model", "model-inconsistent", "exact model of mprocess_element_choi_from_var differs from the exact reference at %s (contradicts the theorem)" % (key,), case)
                 if np.abs(e1d - ref).max() > tol * (1 + np.abs(ref).max()):
                     ok = False
-                    if np.abs(e1d - mod1).max() <= tol * (1 + np.abs(mod1).max()) and x == m - 1:
+                    if np.abs(e1d - mod_old).max() <= tol * (1 + np.abs(mod_old).max()) and x == m - 1:
                         ctx.violation(sub, "conversion.mprocess_element_choi_from_var", "last-outcome-first-row",
-                                      "mprocess_element_choi_from_var x=%d of %d is not the Choi matrix of the instrument element of quara's variable (differs by %.3g; it equals the model of the code as written) at %s" % (x, m, float(np.abs(e1d - ref).max()), key), case)
+                                      "mprocess_element_choi_from_var x=%d of %d is not the Choi matrix of the instrument element of quara's variable (differs by %.3g; it equals the function as coded before the fix: first row of the last element = + sum over range(m-2), no e_0) at %s" % (x, m, float(np.abs(e1d - ref).max()), key), case)
                     else:
                         ctx.violation(sub, "conversion.mprocess_element_choi_from_var", "value",
-                                      "mprocess_element_choi_from_var x=%d of %d differs from the Choi matrix of quara's variable by %.3g and from the model of the code by %.3g at %s" % (x, m, float(np.abs(e1d - ref).max()), float(np.abs(e1d - mod1).max()), key), case)
+                                      "mprocess_element_choi_from_var x=%d of %d differs from the Choi matrix of quara's variable by %.3g (and from the pre-fix code by %.3g) at %s" % (x, m, float(np.abs(e1d - ref).max()), float(np.abs(e1d - mod_old).max()), key), case)
             cons = [(cv.generate_cvxpy_constraints_from_cvxpy_variable_with_sparsity(c, t, var, m), refs)]
             # the dense variant builds its constraints from mprocess_element_choi_from_var: same site/signature as above
             cl = cv.generate_cvxpy_constraints_from_cvxpy_variable(c, t, var, m)
